@@ -454,6 +454,48 @@ Proof. vm_compute. reflexivity. Qed.
 Example split_rm_ok : files_ok tiny (after split_rm) = true.
 Proof. vm_compute. reflexivity. Qed.
 
+(* the text of the OTHER file: ELEMENTS (4) is written for file 1 in both states with the same (empty) projected
+   content, the projection trees are equal, but the text changes from <ELEMENTS>..</ELEMENTS> (content, none of it
+   for file 1) to <ELEMENTS/> (no content): KeepsSome fails at 4, whose whole content was attributed to file 0 *)
+Definition text (w : world) (f : N) : res (list N) :=
+  ser_heap tiny tiny_el tiny_en tiny_en (fun _ => []) (fuel_of w) w (Some f) 0 0 false.
+Example hollow_before : with_script split (fun w => text w 1) Fuel = Val (BS "
+<AUTOSAR>
+  <AR-PACKAGES>
+    <AR-PACKAGE>
+      <SHORT-NAME>A</SHORT-NAME>
+      <ELEMENTS>
+      </ELEMENTS>
+    </AR-PACKAGE>
+    <AR-PACKAGE>
+      <SHORT-NAME>B</SHORT-NAME>
+    </AR-PACKAGE>
+  </AR-PACKAGES>
+</AUTOSAR>").
+Proof. vm_compute. reflexivity. Qed.
+Example hollow_after : with_script split_rm (fun w => text w 1) Fuel = Val (BS "
+<AUTOSAR>
+  <AR-PACKAGES>
+    <AR-PACKAGE>
+      <SHORT-NAME>A</SHORT-NAME>
+      <ELEMENTS/>
+    </AR-PACKAGE>
+    <AR-PACKAGE>
+      <SHORT-NAME>B</SHORT-NAME>
+    </AR-PACKAGE>
+  </AR-PACKAGES>
+</AUTOSAR>").
+Proof. vm_compute. reflexivity. Qed.
+Example hollow_differs : with_script split (fun w => text w 1) Fuel <> with_script split_rm (fun w => text w 1) Fuel.
+Proof.
+  intros H. apply (f_equal (fun r => match r with Val l => List.length l | _ => 0%nat end)) in H. vm_compute in H. discriminate.
+Qed.
+Example hollow_same_tree :
+  with_script split (fun w => fproj (fuel_of w) w (Some 1) 0) None =
+  with_script split_rm (fun w => fproj (fuel_of w) w (Some 1) 0) None /\
+  with_script split (fun w => match fproj (fuel_of w) w (Some 1) 0 with Some _ => true | None => false end) false = true.
+Proof. vm_compute. split; reflexivity. Qed.
+
 (* ---------- the defect classes, on the model ---------- *)
 (* (i) a removed file is added again: the root and the package are restricted to a file the model does not own;
        after remove_from_file 7 1 the package B is in no file of the model *)
